@@ -980,6 +980,10 @@ class ESME:
                     await self.connect()  # Will raise error if not successful
                     self.retry_timer.reset()
                     self._bound.set()  # Tell _send_data it can proceed
+                    if self._is_shutting_down:
+                        # stop() was called while the bind was in progress and found nothing to
+                        # unbind. The session is bound now: end it the way stop() would have
+                        await self._disconnect()
                     # Wait until any task fails
                     all_tasks: Set[Task] = {
                         asyncio.create_task(self._receive_data(), name='Receiver'),
